@@ -192,14 +192,11 @@ Proof.
   all: intros E; apply (f_equal (fun z => fth z t)) in E; cbn in E;
     first [rewrite upd_same in E | (unfold upd in E; rewrite Nat.eqb_refl in E) | idtac].
   all: try (apply (f_equal tpc) in E; revert E; split_ret; cbn; rewrite Epc; discriminate).
-  - (* PIdle: the script gets shorter *)
-    apply (f_equal (fun th => length (tscript th))) in E.
-    revert E. cbn. rewrite Heql. cbn. clear. intros E. induction (length l); [discriminate|]. injection E. auto.
   - apply (f_equal tpc) in E. cbn in E. rewrite Epc in E. inversion E. n2p. congruence.
   - apply (f_equal (fun th => length (pending (tag th)))) in E.
     revert E. cbn. rewrite Heql. cbn. clear. intros E. induction (length l); [discriminate|]. injection E. auto.
   - apply (f_equal tpc) in E. cbn in E. rewrite Epc in E.
-    revert E. destruct (desired (fd s) <? tg); intros E; inversion E. n2p. congruence.
+    revert E. destruct (desired (fd s) <? tg); intros E; inversion E; n2p; congruence.
 Qed.
 
 Theorem fg_no_deadlock s :
